@@ -608,7 +608,7 @@ class Gen:
         if c < 0.85:
             op = r.choice(self.ops())
             a = self.expr(names, d - 1)
-            if op in ("//", "%") and r.random() < 0.6:
+            if op in ("//", "%") and r.random() < 0.8:
                 b = self.const()              # mostly non-zero divisors
                 if b == L(0):
                     b = L(3)
